@@ -16,14 +16,14 @@ CLAIMED = {
           "DESIGN.md 4 C02"),
   "C03": ("exploration", "deterministic simulation: commit-schedule/clearCaches/restart fault injection against an undisturbed never-committing twin and fresh replay to the last commit",
           "Seeded histories crossed with commit schedules, clearCaches (boundary and mid-block) and restarts; oracles: equality with a twin that never commits, equality with a fresh replay up to the last committed height after a loss, and re-convergence after the lost calls are fed again. Sampling, not proof.",
-          "Process stop = dropping the engine and reopening the RocksDB directories (completed writes survive). Reorgs excluded here (covered by C01/C04).",
+          "Process stop = dropping the engine and reopening the RocksDB directories (completed writes survive). Reorgs are part of the common history of both replicas; a commit accepted while the block under construction holds only parked transactions is modelled (they are durable).",
           "DESIGN.md 4 C03"),
   "C04": ("fault_enumeration", "deterministic simulation with fault enumeration: process death injected before every persistent write (failpoints), reopen, repairing reorg, replica oracle",
-          "For each seeded history every persistent write of commitToDatabase, reorg and finalisation is a crash point (quick: table boundaries, first/last write of every op and a random fill; thorough: every index); the directory is reopened and judged against a fresh replay (state of the last commit for crashes outside commit/reorg; state of H after brc20_reorg(H) for crashes inside). Exhaustive over the crash indices of the generated histories only; the histories themselves are sampled.",
+          "For each seeded history every persistent write of commitToDatabase, reorg and finalisation is a crash point (quick: up to 80 per history - every write to the un-versioned block tables inside reorgs and one commit, first/last/site-change writes, random fill; thorough: every index); every fifth image dies a second time inside the repairing reorg; a sample of crash points is repeated as a real kill of a child process and, where that image differs from the simulated one, recovery is checked on the real image; the directory is reopened and judged against a fresh replay (state of the last commit for crashes outside commit/reorg; state of H after brc20_reorg(H) for crashes inside). Exhaustive over the crash indices of the generated histories only; the histories themselves are sampled.",
           "Process-death semantics: completed RocksDB writes survive, simulated by failing the write and all later ones and dropping the instance. Power loss with unsynced WALs is outside the statement ('the process dies').",
           "DESIGN.md 4 C04"),
   "C05": ("exploration", "deterministic simulation: out-of-protocol call injection at every position class, before/after observation + clean-twin oracle",
-          "Seeded valid histories with 21 kinds of malformed / out-of-protocol calls injected at block boundaries and mid-block; listed kinds must be rejected, rejected calls must leave observations unchanged, and the history must stay equal to a clean twin without the injected calls. Sampling, not proof.",
+          "Seeded valid histories with 25 kinds of malformed / out-of-protocol calls injected at block boundaries and mid-block; listed kinds must be rejected, rejected calls must leave observations unchanged, and the history must stay equal to a clean twin without the injected calls. Sampling, not proof.",
           "State of the block under construction is observed indirectly (continuation of the block and the clean twin).",
           "DESIGN.md 4 C05"),
   "C06": ("exploration", "deterministic simulation with a runtime coherence monitor (own bloom, own SHA-256 merkle, RLP decoding in the harness) at every block boundary",
@@ -39,11 +39,11 @@ CLAIMED = {
           "Replacement of a waiting nonce modelled as last-wins; entries expiring on the neighbouring block may or may not be listed by txpool_content.",
           "DESIGN.md 4 C08"),
   "C09": ("exploration", "deterministic simulation: seeded hostile request injection in varied engine states with panic / process-death / no-progress monitors and liveness + write probes",
-          "Seeded preparation histories (empty database, mid-block, after reorgs) followed by hostile requests over the live method table (parameter mutations, payload encodings, random bytecode, ABI-valid and -invalid precompile input, garbage RLP); monitors: caught panics, worker death, 45 s no-progress watchdog with confirmation re-run, liveness probe after every request and write probe every 8th and at the end. Sampling, not proof.",
+          "Seeded preparation histories (empty database, mid-block, after reorgs) followed by hostile requests over the live method table (parameter mutations, payload encodings, random bytecode, ABI-valid and -invalid precompile input, garbage RLP); monitors: caught panics, worker death, 45 s no-progress watchdog with confirmation re-run, liveness probe after every request and write probe every 8th and at the end. One run in forty instead abuses the real server (public start(), loopback, authentication on in half) with 6-15 seeded transport faults of 23 kinds (torn / oversized / malformed requests, vanishing clients during a heavy call or a wait for the open block, connection floods, pipelining, bad chunking, WebSocket garbage, odd Authorization bytes), each followed by a fresh-connection probe and a check of the process-wide panic record. Sampling, not proof.",
           "Input generation finds the decoder panics; the simulated part is the stateful follow-up (wedged engine, poisoned lock, hang). Work-bounding parameters (block_count, inscription_byte_len) only take small values. Bitcoin-node panics are classified as environment.",
           "DESIGN.md 4 C09"),
   "C10": ("exploration", "deterministic simulation: read requests injected at every boundary / mid-block, before/after observation, twin without reads, on-disk comparison after commit",
-          "Seeded histories with executing reads running state-mutating bytecode (eth_call, eth_callMany with carry-over/overrides, estimateGas(Many), brc20_balance) and getters; oracles: observation unchanged by each read, equality with a twin that never reads, and key-by-key equality of all RocksDB directories after a final commit. Sampling, not proof.",
+          "Seeded histories with executing reads running state-mutating bytecode (eth_call, eth_callMany with carry-over/overrides, estimateGas(Many), brc20_balance) and getters; oracles: observation unchanged by each read, equality with a twin that never reads, and key-by-key equality of all RocksDB directories after a final commit; reads carry explicit block parameters (tags, past and future heights, garbage) and Bitcoin-transaction overrides, the common history contains clearCaches and restarts. Sampling, not proof.",
           "mineTimestamp masked in stored block rows.",
           "DESIGN.md 4 C10"),
   "C11": ("exploration", "deterministic simulation of thread interleavings: real handler threads parked at every lock acquire/release (lock seam), seeded scheduler with a writer-preferring RwLock admission model, replayable schedules",
@@ -51,7 +51,7 @@ CLAIMED = {
           "Only the application locks are modelled; the admission rule is std's futex RwLock policy (reader blocked while a writer is queued). The 5 s wait collapses to an immediate timeout under the paused clock.",
           "DESIGN.md 4 C11, Appendix B"),
   "C12": ("fault_enumeration", "fault enumeration over the real HTTP/JSON-RPC stack: every method x request shape x credential fault, state digest before/after each unauthorised request",
-          "The real start() on loopback and one synchronous client enumerate every registered method x {call, notification, batch element first/middle/last} x {no, wrong-user, wrong-password, malformed, correct header} x {auth on, off}; unauthorised requests must not change a public state digest, protected methods answer 401 per element, public ones keep working, authorised ones are never refused; calling every non-protected method with well-formed parameters checks the completeness of the protected list. Exhaustive over that matrix for the prepared state; seeds vary state details.",
+          "The real start() on loopback and one synchronous client enumerate every registered method x {call, notification, batch element first/middle/last} x {no, wrong-user, wrong-password, malformed, correct header} x 8 authentication settings (ordinary, blank, half-blank and colon-containing credentials, disabled with and without credentials configured, enabled with a credential missing - then start() must fail); unauthorised requests must not change a public state digest, protected methods answer 401 per element, public ones keep working, authorised ones are never refused; calling every non-protected method with well-formed parameters checks the completeness of the protected list, registered names without a parameter template are tried with the parameters of every protected method, and anonymous reads that the EVM refuses must leave the indexer able to continue. Exhaustive over that matrix for the prepared state; seeds vary state details.",
           "Real sockets with a single blocking client (the transcript is a function of the request list). WebSocket transport not exercised.",
           "DESIGN.md 4 C12"),
   "C13": ("exploration", "deterministic component simulation against a key -> full-history reference model (seeded op sequences incl. commit/discard/reopen/rollback), plus a bounded exhaustive pass",
@@ -59,7 +59,7 @@ CLAIMED = {
           "Window measured from the highest block the table has ever been told about (what pruning is relative to). Component preconditions (monotone block numbers) respected by the generator.",
           "DESIGN.md 4 C13"),
   "C16": ("exploration", "deterministic simulation: seeded chain states, gas-allowance sweep per program and estimate -> transaction loop closed on the same instance",
-          "In chain states reached by seeded histories (commits, reorgs), generated programs are submitted with inscription lengths from 0 to 2^64-1: gasUsed <= saturating allowance, failed transactions leave accounts/code/storage unchanged except the sender's nonce, and eth_estimateGas -> brc20_call with ceil(estimate/12000) bytes succeeds with eth_call's output. Sampling, not proof.",
+          "In chain states reached by seeded histories (commits, reorgs), generated programs are submitted with inscription lengths from 0 to 2^64-1: gasUsed <= saturating allowance, failed transactions leave accounts/code/storage unchanged except the sender's nonce, and eth_estimateGas -> brc20_call with ceil(estimate/12000) bytes succeeds with eth_call's output (also across a reorg that changes what the call costs); probes travel as hex or base64 inscriptions or as signed transactions; the first two runs of every batch work at heights 330000 (signet) and 980000 (mainnet). Sampling, not proof.",
           "Programs that swallow sub-call failures or read GAS/TIMESTAMP/PREVRANDAO/0xfa are excluded as the statement allows.",
           "DESIGN.md 4 C16"),
   "C17": ("exploration", "deterministic simulation: seeded chain states, eth_call followed by the same transaction on the same instance",
@@ -75,7 +75,7 @@ CLAIMED = {
           "Activation heights themselves are not reached (mining 275000 blocks per run is too slow).",
           "DESIGN.md 4 C19"),
   "C20": ("fault_enumeration", "fault enumeration with the real start(): all (creating, reopening) configuration pairs, tampered / missing records, foreign directories, crash points of the first-run recording",
-          "All 16 x 16 ordered configuration pairs over 8 networks (incl. the empty name) x traces on/off, each of the 4 recorded keys removed or altered (numeric and non-numeric values) in the config database, populated directory without config, foreign non-empty directory, and every write of the first-run recording as a crash point. Identical configuration must reopen and serve the same digest; anything else must fail to start and leave the data usable under the original configuration. Exhaustive over that finite space.",
+          "All 16 x 16 ordered configuration pairs over 8 networks (incl. the empty name) x traces on/off, each of the 4 recorded keys removed or altered (numeric and non-numeric values) in the config database, populated directory without config, foreign non-empty directory, every write of the first-run recording as a crash point, and two child processes per configuration (one of which ran another configuration first) that must serve the same configuration-dependent history. Identical configuration must reopen and serve the same digest; anything else must fail to start and leave the data usable under the original configuration. Exhaustive over that finite space.",
           "Version constants are varied by tampering with the stored record (they cannot vary within one build).",
           "DESIGN.md 4 C20"),
 }
